@@ -10,6 +10,7 @@
    partition p's position inside a Pos string, `eff_flt` the filter in effect. *)
 From LR Require Import lib.Base model.Paging proofs.PagingP.
 From LR Require Import proofs.PagingContentP.
+From LR Require Import proofs.PagingRetryP.
 From Coq Require Import Permutation.
 
 (* ---- pages, no appends: for every store, filter, merge order, limit script and resume script over
@@ -130,25 +131,78 @@ Theorem C03_content_partial : forall clear filtered flt choose strict st steps, 
 Proof. exact delivered_are_stored. Qed.
 Print Assumptions C03_content_partial.
 
-(* ---- a request sent again (same ReqId, same Pos, same limit, nothing appended) returns the same page *)
+(* ---- a request sent again (same ReqId, same Pos, same limit, nothing appended since it was sent) returns the same
+   page. `steps` is any chain before it (all five kinds); the merge order is a function of the heads (a cursor built
+   anew restarts the scheduler oracle: C03_retry_needs_merge_by_heads); a store of more than one partition has not
+   been appended to during the chain (a merge selection cached before an append is not the one a new cursor makes
+   after it: C03_retry_needs_unappended_store) *)
 Definition C03_retry_statement (clear strict : bool) : Prop :=
-  forall filtered flt choose st steps k l w, wf_store st ->
+  forall filtered flt choose st steps k l w, wf_store st -> merge_by_heads choose ->
+  (no_appends steps \/ (length st <= 1)%nat) ->
   forall a b, skipn (length steps) (map rs_events (run_from clear filtered flt choose strict st PHead
                                        (steps ++ [mkStep k l w []; mkStep RRetry l w []]))) = [a; b] -> a = b.
 
 Definition ex2_store : store :=
   [mkPart [x73] [x74] [mkCh 5 [mkEv 1 [x6b] []; mkEv 2 [x6b] []; mkEv 3 [x6b] []; mkEv 4 [x6b] []]]].
 
-(* refuted with or without the Fields repair: with a WHERE filter the fiterator hands out the event it had
-   peeked (event 3) instead of the one at Pos (event 2) *)
-Theorem C03_retry_refuted : forall clear, ~ C03_retry_statement clear false.
+(* the code (GetOrCreate drops a cached cursor whose Pos differs and builds a new one: strict = true), with or without
+   the Fields repair: the cursor that answered the request and the cursor that answers it again stand at the same
+   consumed counts, and a page is a function of those *)
+Theorem C03_retry : forall clear, C03_retry_statement clear true.
+Proof. intros clear filtered flt choose st steps k l w. exact (retried_page_same clear filtered flt choose st steps k l w). Qed.
+Print Assumptions C03_retry.
+
+(* the variant before the repair (the cached cursor is re-positioned: strict = false) refutes it, with or without the
+   Fields repair: with a WHERE filter the fiterator hands out the event it had peeked (event 3) instead of the one at
+   Pos (event 2) *)
+Theorem C03_retry_repositioned_refuted : forall clear, ~ C03_retry_statement clear false.
 Proof.
   intros clear H.
   assert (wf_store ex2_store) as Hwf by (split; [repeat constructor; intros []|repeat constructor]).
-  specialize (H true (flt_of (FContains [x6b])) choose_min ex2_store [mkStep RSame 1 true []] RSame 1%N true Hwf).
+  assert (merge_by_heads choose_min) as Hm by (intros t t' hs; reflexivity).
+  assert (no_appends [mkStep RSame 1 true []]) as Hna by (repeat constructor).
+  specialize (H true (flt_of (FContains [x6b])) choose_min ex2_store [mkStep RSame 1 true []] RSame 1%N true Hwf Hm (or_introl Hna)).
   destruct clear; vm_compute in H; specialize (H _ _ eq_refl); discriminate H.
 Qed.
-Print Assumptions C03_retry_refuted.
+Print Assumptions C03_retry_repositioned_refuted.
+
+(* both hypotheses of the statement are needed, also for the code (clear = true, strict = true). A merge that depends
+   on the number of selections made: even -> leftmost source with an event, odd -> rightmost *)
+Fixpoint first_some (i : nat) (hs : list (option oev)) : nat :=
+  match hs with [] => O | Some _ :: _ => i | None :: tl => first_some (S i) tl end.
+Fixpoint last_some (i : nat) (hs : list (option oev)) (best : nat) : nat :=
+  match hs with [] => best | Some _ :: tl => last_some (S i) tl i | None :: tl => last_some (S i) tl best end.
+Definition choose_flip (t : nat) (hs : list (option oev)) : nat := if Nat.even t then first_some 0 hs else last_some 0 hs 0%nat.
+Definition ex4_store : store :=
+  [mkPart [x61] [x41] [mkCh 3 [mkEv 10 [x61] []; mkEv 30 [x62] []]];
+   mkPart [x62] [x42] [mkCh 4 [mkEv 20 [x64] []; mkEv 40 [x65] []]]].
+
+Theorem C03_retry_needs_merge_by_heads : exists steps k l w a b,
+  wf_store ex4_store /\ no_appends steps /\
+  skipn (length steps) (map rs_events (run_from true false (fun _ => true) choose_flip true ex4_store PHead
+                          (steps ++ [mkStep k l w []; mkStep RRetry l w []]))) = [a; b] /\ a <> b.
+Proof.
+  exists [mkStep RSame 1 true []], RSame, 1%N, true. eexists. eexists.
+  split; [split; [repeat constructor; cbn; intuition discriminate|repeat constructor]|].
+  split; [repeat constructor|]. split; [vm_compute; reflexivity|discriminate].
+Qed.
+Print Assumptions C03_retry_needs_merge_by_heads.
+
+(* two partitions, earliest-timestamp merge: the cursor caches its selection (20, partition b being the only one with
+   an event); an event with timestamp 15 is appended to partition a and a page of limit 0 is read; the next page
+   starts with the cached 20, the same request sent again is answered by a new cursor, which starts with 15 *)
+Definition ex5_store : store :=
+  [mkPart [x61] [x41] [mkCh 3 [mkEv 10 [x61] []]]; mkPart [x62] [x42] [mkCh 4 [mkEv 20 [x64] []]]].
+Theorem C03_retry_needs_unappended_store : exists steps k l w a b,
+  wf_store ex5_store /\ merge_by_heads choose_min /\
+  skipn (length steps) (map rs_events (run_from true false (fun _ => true) choose_min true ex5_store PHead
+                          (steps ++ [mkStep k l w []; mkStep RRetry l w []]))) = [a; b] /\ a <> b.
+Proof.
+  exists [mkStep RSame 1 true []; mkStep RSame 0 true [mkApp 0 3 [mkEv 15 [x63] []]]], RSame, 1%N, true. eexists. eexists.
+  split; [split; [repeat constructor; cbn; intuition discriminate|repeat constructor]|].
+  split; [intros t t' hs; reflexivity|]. split; [vm_compute; reflexivity|discriminate].
+Qed.
+Print Assumptions C03_retry_needs_unappended_store.
 
 (* ---- non-vacuity: a two-partition, three-chunk store with tied-free timestamps; a script using every kind
    and an append; the pages the model delivers *)
@@ -171,7 +225,7 @@ Proof. vm_compute. split; [reflexivity|lia]. Qed.
 
 (* ---- the two witnesses under the repairs (what `repo_clears_fields` / `repo_strict_pos` = true mean):
    with Unmarshal clearing Fields (the code) the retried page of ex1 carries the stored fields; with a provider that never
-   re-positions a cached cursor the retried page of ex2 is the page delivered before *)
+   re-positions a cached cursor (the code) the retried page of ex2 is the page delivered before *)
 Example C03_ex_fixed_fields :
   map (fun r => map (fun e => (o_ts e, o_flds e)) (rs_events r)) (run_from true false (fun _ => true) choose_min false ex1_store PHead ex1_steps)
   = [[(1%Z, [])]; [(2%Z, [])]; [(2%Z, [])]].
